@@ -67,6 +67,17 @@ def histories(tier):
             c2 = asserting(n1, t2)
             H.append(("dupassert%d%d/%d,%d" % (t1, t2, a, b), [S(a), U(b), sub("f", [R(0), R(1)], c1, R(2 + len(c1))),
                                                               sub("f", [R(0), R(1)], c2, R(n1 + len(c2))), VAL(R(n1 + len(c2) + 1))]))
+        # a sub-circuit that returns nothing secret, called twice in a row with no wire created in between
+        nb1 = [{"op": "item", "a": R(2), "i": 0}, BIN("mul", R(3), R(3))]
+        nb2 = [{"op": "item", "a": R(6), "i": 0}, BIN("mul", R(7), R(7))]
+        H.append(("noret2/%d,%d" % (a, b), [S(a), U(b), sub("nr", [R(0)], nb1, {"c": 7}), sub("nr", [R(1)], nb2, {"c": 7}), BIN("mul", R(0), R(1)), VAL(R(10))]))
+        # nested: the outer function returns the inner call's result directly (no wire created after the inner call)
+        inn = [{"op": "item", "a": R(4), "i": 0}, BIN("mul", R(5), R(5))]
+        outr = [{"op": "item", "a": R(2), "i": 0}, sub("inner2", [R(3)], inn, R(6))]
+        H.append(("nestedret/%d,%d" % (a, b), [S(a), U(b), sub("outer2", [R(0)], outr, R(7)), VAL(R(8))]))
+        # ... and one that returns a linear combination of an argument and the inner result
+        outr2 = [{"op": "item", "a": R(2), "i": 0}, sub("inner2", [R(3)], inn, R(6)), BIN("add", R(3), R(7))]
+        H.append(("nestedlin/%d,%d" % (a, b), [S(a), U(b), sub("outer3", [R(0)], outr2, R(8)), VAL(R(9))]))
         # nested: outer(x,y) calls inner(x) and multiplies
         inner_base = 2 + 1 + 2      # outer args list r2, items r3 r4, then the inner call starts at r5
         inner = [{"op": "item", "a": R(5), "i": 0}, BIN("mul", R(6), R(6))]
